@@ -357,6 +357,22 @@ def coopq : P String := do
     let v := v.diffIf (!closeFM qf i1) s!"CooperativeQLearning::stepUpdateQ model≠impl"
     return v.render
 
+def qrule : P QRule := do
+  let sk ← P.nats; let sv ← P.nats; let ak ← P.nats; let av ← P.nats; let v ← P.q
+  pure { sk := sk, sv := sv, ak := ak, av := av, value := v }
+
+/-- `sparseq S A rules alpha gamma hist | finalValues` : SparseCooperativeQLearning replayed by the model (greedy a1 from the
+    implementation); rule values compared in insertion order to 1e-9 -/
+def sparseq : P String := do
+  let _S ← P.nats; let A ← P.nats; let rules ← P.list qrule; let alpha ← P.q; let gamma ← P.q
+  let hist ← P.list coopEvent; P.bar
+  let iv ← P.qs; P.eof
+  let m := (sparseRun A.length alpha gamma rules hist).map (·.value)
+  let v : Verdict := { tag := "sparseq" }
+  let same := m.length == iv.length && (m.zip iv).all (fun (x, y) => closeQ (1 / 1000000000) x y)
+  let v := v.diffIf (!same) s!"SparseCooperativeQLearning::stepUpdateQ model≠impl"
+  return v.render
+
 /-- `eq <component> <kind> exact|close | a | b` : two implementations that must coincide (flat vs single-factor) -/
 def eqv : P String := do
   let comp ← P.tok; let kind ← P.tok; let mode ← P.tok; P.bar
@@ -391,6 +407,7 @@ def handle (toks : List String) : Option String :=
   | "ddnrows" :: rest => P.run ddnrows rest
   | "jal" :: rest => P.run jal rest
   | "coopq" :: rest => P.run coopq rest
+  | "sparseq" :: rest => P.run sparseq rest
   | "eq" :: rest => P.run eqv rest
   | "probe" :: rest => P.run probe rest
   | _ => none
